@@ -39,6 +39,13 @@ type RunOut struct {
 	Sched, Aux   []int32
 	Log          []string
 	Sample       interface{}
+	// Tainted: the run left process-wide residue behind (daemon goroutines of
+	// the code under test that outlive the simulated process). Runs based on
+	// simrt need not set it: RunBatch watches simrt.LeftoverRuns.
+	Tainted bool
+	// Restart: the residue makes further runs in this OS process meaningless
+	// (e.g. channels tied to a finished synctest bubble); continue in a fresh one.
+	Restart bool
 }
 
 // Check is one property's workload + oracles.
@@ -76,6 +83,9 @@ type Replay struct {
 	Aux         []int32         `json:"aux"`
 	Fingerprint string          `json:"fingerprint"`
 	Log         []string        `json:"log,omitempty"`
+	// Tainted (marker files only): earlier plans of the dying process had left
+	// daemon goroutines behind when this plan started
+	Tainted bool `json:"tainted,omitempty"`
 }
 
 // WorkerResult is what one worker process reports.
@@ -100,6 +110,12 @@ type WorkerResult struct {
 	RaceErrors   int            `json:"race_errors"`
 	FirstRun     int            `json:"first_run"`
 	LastRun      int            `json:"last_run"`
+	// Continue: this process stopped early because the code under test left
+	// process-wide residue; a fresh process takes over at (ContinueRun, ContinueSub)
+	Continue    bool `json:"continue,omitempty"`
+	ContinueRun int  `json:"continue_run,omitempty"`
+	ContinueSub int  `json:"continue_sub,omitempty"`
+	Seg         int  `json:"segment,omitempty"`
 }
 
 // FoundViol is a violation found by a worker.
@@ -127,6 +143,9 @@ type Opts struct {
 	Selftest  bool   // execute every run twice and compare fingerprints
 	FpLog     string // write one line per run: run sub fingerprint violation-key
 	Marker    bool   // write the plan about to be executed to a marker file (crash attribution)
+	// First/FirstSub: where this process takes over (a continuation segment);
+	// Seg numbers the segment and goes into the result file names
+	First, FirstSub, Seg int
 }
 
 func runSeed(seed uint64, id string, run int) uint64 {
@@ -166,6 +185,9 @@ func MainArgs(args []string, checks map[string]Check) {
 		one     = flag.Int("one", -1, "execute just this run index verbosely")
 		fplog   = flag.String("fplog", "", "write per-run fingerprints to this file")
 		marker  = flag.Bool("marker", false, "record the plan about to run, so that a crash of this process can be attributed")
+		first   = flag.Int("first", -1, "continuation: first run index of this process")
+		firstSb = flag.Int("firstsub", 0, "continuation: first sub-plan of that run")
+		seg     = flag.Int("seg", 0, "continuation: segment number")
 	)
 	flag.Parse(args)
 	if *replay != "" {
@@ -180,14 +202,15 @@ func MainArgs(args []string, checks map[string]Check) {
 		os.Exit(2)
 	}
 	o := Opts{Seed: *seed, Tier: *tier, Worker: *worker, Workers: *workers, Runs: *runs, Budget: *budget,
-		OutDir: *outDir, ReplayDir: *repDir, Flavour: *flavour, RepoTree: *tree, MaxViol: 4, Selftest: *self, FpLog: *fplog, Marker: *marker}
+		OutDir: *outDir, ReplayDir: *repDir, Flavour: *flavour, RepoTree: *tree, MaxViol: 4, Selftest: *self, FpLog: *fplog, Marker: *marker,
+		First: *first, FirstSub: *firstSb, Seg: *seg}
 	if *one >= 0 {
 		runOne(c, o, *one)
 		return
 	}
 	res := RunBatch(c, o)
 	b, _ := json.MarshalIndent(res, "", " ")
-	name := filepath.Join(o.OutDir, fmt.Sprintf("result-%s-%s-%d.json", c.ID(), o.Flavour, o.Worker))
+	name := filepath.Join(o.OutDir, fmt.Sprintf("result-%s-%s-%d%s.json", c.ID(), o.Flavour, o.Worker, segSuffix(o)))
 	if err := os.WriteFile(name, b, 0644); err != nil {
 		fmt.Fprintf(os.Stderr, "INFRA: %v\n", err)
 		os.Exit(2)
@@ -230,11 +253,21 @@ func RunBatch(c Check, o Opts) *WorkerResult {
 		fplog, _ = os.Create(o.FpLog)
 		defer fplog.Close()
 	}
-	for run := o.Worker; ; run += o.Workers {
+	res.Seg = o.Seg
+	startRun := o.Worker
+	if o.First >= 0 {
+		startRun = o.First
+	}
+	stop := false
+	for run := startRun; !stop; run += o.Workers {
 		if o.Runs > 0 && run >= o.Runs {
 			break
 		}
 		if time.Now().After(deadline) {
+			break
+		}
+		if restartWanted {
+			res.Continue, res.ContinueRun, res.ContinueSub = true, run, 0
 			break
 		}
 		if res.FirstRun < 0 {
@@ -256,15 +289,31 @@ func RunBatch(c Check, o Opts) *WorkerResult {
 			plans = []json.RawMessage{pj}
 		}
 		for sub, p := range plans {
+			if run == o.First && sub < o.FirstSub {
+				continue
+			}
 			tape := simrt.NewTape(simrt.NewRand(simrt.Mix(rs, uint64(sub), 77)), strat)
 			raceBefore := simrt.RaceErrors()
+			taintedBefore := processTainted()
 			if o.Marker {
 				mk := Replay{Property: c.ID(), Oracle: "crash", Key: "crash", Message: "the driver process died while executing this plan", Seed: o.Seed, Run: run, Sub: sub,
-					Tier: o.Tier, Flavour: o.Flavour, RepoTree: o.RepoTree, Plan: p}
+					Tier: o.Tier, Flavour: o.Flavour, RepoTree: o.RepoTree, Plan: p, Tainted: taintedBefore}
 				mb, _ := json.Marshal(&mk)
 				os.WriteFile(filepath.Join(o.OutDir, fmt.Sprintf("marker-%s-%s-%d.json", c.ID(), o.Flavour, o.Worker)), mb, 0644)
 			}
-			out := c.Exec(p, tape, false)
+			out := execTracked(c, p, tape, false)
+			if processTainted() && !taintedBefore {
+				res.Probes["runs_that_left_daemons_behind"]++
+			}
+			if taintedBefore && (out.Violation != nil || simrt.RaceErrors() > raceBefore || out.Infra != "") {
+				// Something looks wrong, but this process is no longer like a
+				// fresh one: nothing is judged here. A fresh process re-executes
+				// exactly this plan first; a real violation shows again there.
+				res.Probes["rechecked_in_fresh_process"]++
+				res.Continue, res.ContinueRun, res.ContinueSub = true, run, sub
+				stop = true
+				break
+			}
 			if d := simrt.RaceErrors() - raceBefore; d > 0 && out.Violation == nil && out.Infra == "" {
 				res.RaceErrors += d
 				out.Violation = &Violation{Oracle: raceOracle(c.ID()), Key: raceOracle(c.ID()),
@@ -309,7 +358,7 @@ func RunBatch(c Check, o Opts) *WorkerResult {
 				res.Samples = append(res.Samples, out.Sample)
 			}
 			if o.Selftest && out.Violation == nil {
-				out2 := c.Exec(p, simrt.Replay(out.Sched, out.Aux), false)
+				out2 := execTracked(c, p, simrt.Replay(out.Sched, out.Aux), false)
 				if out2.Fingerprint != out.Fingerprint {
 					res.Infra = append(res.Infra, fmt.Sprintf("run %d.%d: NONDETERMINISM: fingerprints %016x vs %016x", run, sub, out.Fingerprint, out2.Fingerprint))
 				}
@@ -364,7 +413,7 @@ func raceOracle(id string) string {
 }
 
 func writeFps(o Opts, id, kind string, set map[uint64]struct{}) string {
-	name := filepath.Join(o.OutDir, fmt.Sprintf("%s-%s-%s-%d.bin", kind, id, o.Flavour, o.Worker))
+	name := filepath.Join(o.OutDir, fmt.Sprintf("%s-%s-%s-%d%s.bin", kind, id, o.Flavour, o.Worker, segSuffix(o)))
 	keys := make([]uint64, 0, len(set))
 	for k := range set {
 		keys = append(keys, k)
@@ -382,7 +431,7 @@ func writeFps(o Opts, id, kind string, set map[uint64]struct{}) string {
 // violations need a fresh process because ThreadSanitizer reports each racy
 // stack pair only once per process.
 func failsSame(c Check, rp *Replay, plan json.RawMessage, sched, aux []int32, o Opts) (bool, RunOut) {
-	if strings.HasSuffix(rp.Oracle, "race") {
+	if strings.HasSuffix(rp.Oracle, "race") || processTainted() {
 		cand := *rp
 		cand.Plan, cand.Sched, cand.Aux = plan, sched, aux
 		f, err := os.CreateTemp(o.OutDir, "cand-*.json")
@@ -400,14 +449,49 @@ func failsSame(c Check, rp *Replay, plan json.RawMessage, sched, aux []int32, o 
 			var ro struct {
 				Sched, Aux  []int32
 				Fingerprint uint64
+				Oracle, Msg string
+				Log         []string
 			}
 			json.Unmarshal(outb, &ro)
-			return true, RunOut{Sched: ro.Sched, Aux: ro.Aux, Fingerprint: ro.Fingerprint}
+			return true, RunOut{Sched: ro.Sched, Aux: ro.Aux, Fingerprint: ro.Fingerprint, Log: ro.Log,
+				Violation: &Violation{Oracle: ro.Oracle, Key: rp.Key, Msg: ro.Msg}}
 		}
 		return false, RunOut{}
 	}
-	out := c.Exec(plan, simrt.Replay(sched, aux), false)
+	out := execTracked(c, plan, simrt.Replay(sched, aux), false)
 	return out.Violation != nil && out.Violation.Key == rp.Key, out
+}
+
+// ---- process-wide residue ------------------------------------------------------
+
+var (
+	taintedFlag   bool
+	restartWanted bool
+)
+
+// processTainted: some earlier run of this OS process left daemon goroutines of
+// the code under test behind (a lazily started worker pool, a reaper). Their
+// tasks were unwound with the simulated process, but package-level state still
+// refers to them, so later runs here are not judged: violations are re-checked
+// in a fresh process and minimisation evaluates its candidates in fresh ones.
+func processTainted() bool { return taintedFlag || simrt.LeftoverRuns() > 0 }
+
+func execTracked(c Check, plan json.RawMessage, tape *simrt.Tape, keepLog bool) RunOut {
+	out := c.Exec(plan, tape, keepLog)
+	if out.Tainted {
+		taintedFlag = true
+	}
+	if out.Restart {
+		restartWanted = true
+	}
+	return out
+}
+
+func segSuffix(o Opts) string {
+	if o.Seg > 0 {
+		return fmt.Sprintf(".%d", o.Seg)
+	}
+	return ""
 }
 
 // Minimise shrinks plan, then schedule, keeping candidates that fail with the
@@ -418,7 +502,7 @@ func Minimise(c Check, rp *Replay, o Opts) *Replay {
 	maxExecs := 400
 	maxTime := 90 * time.Second
 	isRace := strings.HasSuffix(rp.Oracle, "race")
-	if isRace {
+	if isRace || processTainted() {
 		maxExecs = 36
 		maxTime = 30 * time.Second
 	}
@@ -452,11 +536,11 @@ func Minimise(c Check, rp *Replay, o Opts) *Replay {
 					break
 				}
 			}
-			if !found && !strings.HasSuffix(rp.Oracle, "race") {
+			if !found && !strings.HasSuffix(rp.Oracle, "race") && !processTainted() {
 				for k := 0; k < 3 && ok(); k++ {
 					execs++
 					tape := simrt.NewTape(simrt.NewRand(simrt.Mix(rp.Seed, uint64(execs), 991)), simrt.Strategy{Kind: "uniform"})
-					out := c.Exec(cand, tape, false)
+					out := execTracked(c, cand, tape, false)
 					if out.Violation != nil && out.Violation.Key == rp.Key {
 						cur.Plan, cur.Sched, cur.Aux = cand, out.Sched, out.Aux
 						found = true
@@ -542,8 +626,8 @@ func Minimise(c Check, rp *Replay, o Opts) *Replay {
 		shrinkStream(func() []int32 { return cur.Aux }, func(v []int32) { cur.Aux = v })
 	}
 	// final decoded run
-	if !strings.HasSuffix(rp.Oracle, "race") {
-		out := c.Exec(cur.Plan, simrt.Replay(cur.Sched, cur.Aux), true)
+	if !strings.HasSuffix(rp.Oracle, "race") && !processTainted() {
+		out := execTracked(c, cur.Plan, simrt.Replay(cur.Sched, cur.Aux), true)
 		if out.Violation != nil {
 			cur.Message = out.Violation.Msg
 			cur.Fingerprint = fmt.Sprintf("%016x", out.Fingerprint)
@@ -553,6 +637,11 @@ func Minimise(c Check, rp *Replay, o Opts) *Replay {
 	} else {
 		_, out := failsSame(c, rp, cur.Plan, cur.Sched, cur.Aux, o)
 		cur.Fingerprint = fmt.Sprintf("%016x", out.Fingerprint)
+		if out.Violation != nil && !isRace {
+			cur.Message = out.Violation.Msg
+			cur.Log = out.Log
+			cur.Sched, cur.Aux = trimZeros(out.Sched), trimZeros(out.Aux)
+		}
 	}
 	cur.Minimised = true
 	cur.MinimiseLog = fmt.Sprintf("%d re-executions, %d reductions kept, %.1fs", execs, kept, time.Since(start).Seconds())
@@ -588,7 +677,7 @@ func DoReplay(checks map[string]Check, path string, verbose bool) int {
 		return 2
 	}
 	before := simrt.RaceErrors()
-	out := c.Exec(rp.Plan, simrt.Replay(rp.Sched, rp.Aux), verbose)
+	out := c.Exec(rp.Plan, simrt.Replay(rp.Sched, rp.Aux), true)
 	if d := simrt.RaceErrors() - before; d > 0 && out.Violation == nil {
 		out.Violation = &Violation{Oracle: raceOracle(c.ID()), Key: raceOracle(c.ID()), Msg: fmt.Sprintf("%d data race report(s)", d)}
 	}
@@ -597,7 +686,9 @@ func DoReplay(checks map[string]Check, path string, verbose bool) int {
 			j, _ := json.Marshal(struct {
 				Sched, Aux  []int32
 				Fingerprint uint64
-			}{out.Sched, out.Aux, out.Fingerprint})
+				Oracle, Msg string
+				Log         []string
+			}{out.Sched, out.Aux, out.Fingerprint, out.Violation.Oracle, out.Violation.Msg, out.Log})
 			os.Stdout.Write(j)
 			return 1
 		}
